@@ -1296,7 +1296,11 @@ Section REKEY.
       assert (E1 : exec_res f0 (CRename fname bak) = (f0, FErr EISDIR)).
       { unfold exec_res. cbn [exec]. unfold rename. rewrite G, Hpb, Gb.
         apply path_eqb_neq in Hfb. rewrite Hfb. reflexivity. }
-      rewrite E1 in H. cbn [fst snd] in H. apply crashed_raise_inv in H. subst g. exact Hpre. }
+      rewrite E1 in H. cbn [fst snd] in H.
+      (* the outer handler re-reads the state point file (restore of the in-memory data) *)
+      apply crashed_do_inv in H; [|reflexivity]. destruct H as [->|H]; [exact Hpre|].
+      rewrite E0 in H. cbn [fst snd] in H. rewrite J in H.
+      apply crashed_raise_inv in H. subst g. exact Hpre. }
     destruct (rename_file_ok f0 fname bak c G Hpb Hfb Gb) as [f1 [E1 H1]].
     rewrite E1 in H. cbn [fst snd] in H.
     assert (S1 : st1 c f1) by exact H1.
@@ -1321,7 +1325,15 @@ Section REKEY.
       assert (E5 : exec_res f3 (CRead fname) = (f3, FOk (RData c))).
       { unfold exec_res. cbn [exec]. rewrite S3, path_eqb_refl. reflexivity. }
       rewrite E5 in H. cbn [fst snd] in H. rewrite J in H.
-      assert (Hg : g = f3) by (destruct He as [-> | ->]; cbn in H; apply crashed_raise_inv in H; exact H).
+      assert (Hg : g = f3).
+      { destruct He as [-> | ->]; cbv beta iota delta [dest_exists_e] in H.
+        - first [ apply crashed_raise_inv in H; exact H
+                | apply crashed_do_inv in H; [|reflexivity]; destruct H as [->|H]; [reflexivity|];
+                  rewrite E5 in H; cbn [fst snd] in H; rewrite J in H; apply crashed_raise_inv in H; exact H ].
+        - (* not a collision errno: the re-raised error passes the outer handler, one more read *)
+          first [ apply crashed_raise_inv in H; exact H
+                | apply crashed_do_inv in H; [|reflexivity]; destruct H as [->|H]; [reflexivity|];
+                  rewrite E5 in H; cbn [fst snd] in H; rewrite J in H; apply crashed_raise_inv in H; exact H ]. }
       subst g. apply (cinv_rk_st3 c v0 G J Hod0 f3 S3).
     - (* free destination *)
       destruct Hren as [f2 [Er S2]].
